@@ -98,6 +98,15 @@ def t3_case(case):
         c.add('post:threshold-bound', err <= thr * nX * np.sqrt(max(disc, 0)) * (1 + 1e-8) + 1e-10 * nX,
               'err %.6g thr %.3g norm %.6g discarded %d' % (err, thr, nX, disc), nontrivial=disc > 0)
 
+    # both options together: the rank cap holds whatever the threshold keeps
+    ok, t = c.guarded('post:rank<=max_rank[threshold+max_rank]', lambda: TT(X, threshold=min(thr, 1e-3), max_rank=r))
+    if ok:
+        c.add('post:rank<=max_rank[threshold+max_rank]', all(x <= r for x in t.ranks[1:-1]), '%s cap %d' % (t.ranks, r))
+        err = float(np.linalg.norm((spec.den(t) - X0).ravel()))
+        bound = float(np.sqrt(sum(unfold_tail(X0, d, k, r) ** 2 for k in range(1, d))))
+        c.add('post:error-bound[threshold+max_rank]', err <= np.sqrt(bound ** 2 + (min(thr, 1e-3) * nX) ** 2 * max(1, sum(mr) )) * (1 + 1e-8) + 1e-10 * nX,
+              'err %.6g quasi-optimal bound %.6g' % (err, bound))
+
     # truncation of a TT given by cores ------------------------------------------------------------------------------
     c = C('TT.ortho')
     rk = [1] + [int(rng.integers(1, 6)) for _ in range(d - 1)] + [1]
@@ -118,6 +127,10 @@ def t3_case(case):
         bound = float(np.sqrt(sum(unfold_tail(S, d, k, r) ** 2 for k in range(1, d))))
         c.add('post:quasi-optimal', err <= bound * (1 + 1e-8) + 1e-10 * nS, 'err %.6g bound %.6g' % (err, bound),
               nontrivial=bound > 1e-12 * nS)
+    a = s.copy()
+    ok, _ = c.guarded('post:rank<=max_rank[threshold+max_rank]', lambda: a.ortho(threshold=1e-6, max_rank=r))
+    if ok:
+        c.add('post:rank<=max_rank[threshold+max_rank]', all(x <= r for x in a.ranks[1:-1]), '%s cap %d' % (a.ranks, r))
     # per-bond list
     caps = [1] + [int(rng.integers(1, 4)) for _ in range(d - 1)] + [1]
     a = s.copy()
